@@ -5,6 +5,43 @@ use std::time::Instant;
 
 pub const VERIF: &str = "/verif";
 
+static SAVED_STDOUT: std::sync::atomic::AtomicI32 = std::sync::atomic::AtomicI32::new(-1);
+
+/// The subject prints a lot. Keep the real stdout for the harness' own lines (`say`) and send
+/// everything else written to fd 1 to /dev/null.
+pub fn init_stdout() {
+    unsafe {
+        let saved = libc::dup(1);
+        let devnull = libc::open(b"/dev/null\0".as_ptr() as *const libc::c_char, libc::O_WRONLY);
+        libc::dup2(devnull, 1);
+        libc::close(devnull);
+        SAVED_STDOUT.store(saved, std::sync::atomic::Ordering::SeqCst);
+    }
+}
+
+pub fn say(line: &str) {
+    let fd = SAVED_STDOUT.load(std::sync::atomic::Ordering::SeqCst);
+    if fd < 0 {
+        println!("{}", line);
+        return;
+    }
+    let mut buf = line.as_bytes().to_vec();
+    buf.push(b'\n');
+    let mut off = 0;
+    while off < buf.len() {
+        let n = unsafe { libc::write(fd, buf[off..].as_ptr() as *const libc::c_void, buf.len() - off) };
+        if n <= 0 {
+            break;
+        }
+        off += n as usize;
+    }
+}
+
+#[macro_export]
+macro_rules! say {
+    ($($arg:tt)*) => { $crate::evidence::say(&format!($($arg)*)) };
+}
+
 #[derive(Clone, Debug)]
 pub struct Violation {
     /// identifies *this* failure: panic call site, or digest of the failing input / history
@@ -109,9 +146,9 @@ impl Report {
         let path = dir.join(format!("{}.json", self.prop));
         std::fs::write(&path, serde_json::to_string_pretty(&ev).unwrap()).expect("write evidence");
         for l in lines {
-            println!("{}", l);
+            say(&l);
         }
-        println!(
+        crate::say!(
             "[{} {}] {} wall={:.1}s new_violations={} known_findings={} evidence={}",
             self.prop,
             self.tier,
@@ -168,7 +205,7 @@ pub fn load_known_findings() -> Vec<Known> {
 
 pub fn machinery_error(prop: &str, msg: &str) -> ! {
     eprintln!("MACHINERY-ERROR property={} {}", prop, msg);
-    println!("MACHINERY-ERROR property={} {}", prop, msg);
+    say(&format!("MACHINERY-ERROR property={} {}", prop, msg));
     std::process::exit(2);
 }
 
